@@ -469,6 +469,12 @@ func (g *gen) survival() *simfs.Survival {
 func (g *gen) genCrash(nops int, profile string) {
 	rangeKeys := g.r.IntN(2) == 0
 	wIngest := g.r.IntN(2) == 0
+	if g.cfg.DisableWAL {
+		// With the WAL disabled an ingest/excise that takes the flushable path
+		// is, like every other write, durable only after the next flush; the
+		// durability oracle for ingests assumes a WAL.
+		wIngest = false
+	}
 	ncrash := 0
 	for i := 0; i < nops; i++ {
 		x := g.r.IntN(100)
